@@ -44,8 +44,10 @@ ASSUMPTIONS = [
     "those lines removed so that the rest of the history is still judged",
     "verdicts come from the end-to-end comparison only; two per-commit side checks (stream vs source tree under git-fast-import's "
     "documented sequential semantics - 60-line model in _c44_stream.py; imported tree vs what the commands make of the imported parent) "
-    "only name the side a failing revision is attributed to (key prefix export:stream: / import:tree:), a tree difference is reported "
-    "at the revision where it starts (not at descendants that inherit it)",
+    "only name the side a failing revision is attributed to (key prefix export:stream: / import:tree: / import:raised:), a tree "
+    "difference is reported at the revision where it starts (not at descendants that inherit it); the mechanism part of the key is "
+    "decided from what the revision does to the failing path and its ancestor directories and from the commands the commit contains "
+    "(_export_family, _import_family, _import_crash_family), else the detailed <delta class>:<symptom> key is kept",
     "the importer runs in a forked server process under RLIMIT_CPU (12 CPU-seconds per stream, typical 0.1-0.5): non-termination is "
     "decided by CPU time consumed, not by wall clock; faulthandler supplies the innermost Python frame",
 ]
@@ -537,8 +539,10 @@ def _export_family(plain, d, cls, sym, p, roles):
         for fid in chain:
             c = d.cls.get(fid, "")
             o = opath.get(fid)
-            if c.startswith("renamed") and c.endswith(":directory") and o and any(q.startswith(o + "/") for q in d.old_at) \
-                    and not any(q.startswith(o + "/") for q in srcs):
+            carried = [q for q, f in d.old_at.items() if o and q.startswith(o + "/") and d.cls.get(f, "").startswith("carried")
+                       and d.old[q][0] != "directory"]
+            if c.startswith("renamed") and c.endswith(":directory") and carried and not any(q in srcs for q in carried):
+                # files that simply move along with the directory, and not one of them is renamed explicitly
                 return "plain:directory-rename-not-emitted"
     # an entry that is renamed and changes kind: the exporter emits the rename (or, plain format and new kind directory, nothing)
     # and never removes the old object
